@@ -93,6 +93,10 @@ def ev(node, env):
         return ev(node.value, env)[ev(node.slice, env)]
     if isinstance(node, ast.IfExp):
         return ev(node.body, env) if ev(node.test, env) else ev(node.orelse, env)
+    if isinstance(node, ast.Call) and isinstance(node.func, ast.Attribute) and node.func.attr in ('get', 'startswith', 'endswith', 'keys', 'values'):
+        recv = ev(node.func.value, env)
+        if isinstance(recv, (dict, str)):
+            return getattr(recv, node.func.attr)(*[ev(a, env) for a in node.args])
     if isinstance(node, ast.Call):
         name = u(node.func)
         fn = env.get(name) if name in env else BUILTINS.get(name)
